@@ -203,6 +203,15 @@ func TestC09_Range(t *testing.T) {
 			run(&sizeCase{Op: "count", N: base + d, Lang: int64(bip39.English)})
 		}
 	}
+	// counts congruent to an acceptable one modulo 2^k for every k (a scaled or narrowed check wraps there)
+	for k := uint(8); k < 64; k++ {
+		for _, m := range []int64{1, -1, 2, 3} {
+			for _, v := range []int64{12, 15, 18, 21, 24} {
+				run(&sizeCase{Op: "count", N: v + m<<k, Lang: int64(bip39.English)})
+				run(&sizeCase{Op: "count", N: v*3 + m<<k, Lang: int64(bip39.Japanese)})
+			}
+		}
+	}
 	for k := int64(-30); k <= 3000; k++ {
 		run(&sizeCase{Op: "count", N: 3 * k, Lang: int64(bip39.Korean)})
 		run(&sizeCase{Op: "count", N: 12 + (1<<32)*k, Lang: int64(bip39.Korean)}) // equals 12 after truncation to 32 bits
